@@ -417,7 +417,7 @@ def short(tree):
     return ' '.join(r(n) for n in tree)
 
 
-def one(tree, toppure, res, use_dot, do_list):
+def _one(tree, toppure, res, use_dot, do_list):
     msgs, text = check_dot(tree, toppure)
     if text is not None and use_dot and not msgs:
         m = dot_binary(text)
@@ -438,6 +438,13 @@ def one(tree, toppure, res, use_dot, do_list):
             {'tree': tree, 'toppure': toppure}, cap=10)
 
 
+def one(tree, toppure, res, use_dot, do_list):
+    _, hang = seq.guarded(_one, tree, toppure, res, use_dot, do_list)
+    if hang:
+        seq.add_violation(res, 'c20:hang', "%s | tree %s" % (hang, short(tree)),
+                          {'tree': tree, 'toppure': toppure})
+
+
 def run_item(item):
     res = seq.new_result()
     th = item['thorough']
@@ -446,6 +453,8 @@ def run_item(item):
     for tree in allshapes[lo:hi]:
         for mode in item['modes']:
             for t in variants(tree, mode, th):
+                if res.get('abort'):
+                    break
                 one(t, item['toppure'], res, use_dot=True,
                     do_list=(mode == 'flags'))
         res['states'] += 1
